@@ -154,6 +154,9 @@ def compile_unit(unit, scratch, cover=False):
                                   '-I' + os.path.join(REPO, 'src/lib')]
     for d in unit.get('defines', []):
         cmd.append('-D' + d)
+    # repo-relative include directories (needed when a loop-patched scratch copy of a file includes siblings by relative path)
+    for inc in unit.get('include_dirs', []):
+        cmd.append('-I' + os.path.join(REPO, inc))
     if cover:
         cmd.append('-DVERIF_COVER')
     cmd += ['--function', unit['harness'], os.path.join(VERIF, unit['file']), '-o', out]
@@ -277,6 +280,8 @@ def contract_tags(path, fn, ctl=False):
             for line in m.group(1).splitlines():
                 if line.strip().startswith('V_ENSURES_WF') and ctl:
                     continue      # compiled out in control-only units (-DVERIF_CTL)
+                if line.strip().startswith('V_ENSURES_CTL') and not ctl:
+                    continue      # exists only in control-only units
                 if line.strip().startswith('V_ENSURES'):
                     t = re.search(r'/\*@([^*]+)\*/\s*$', line)
                     tags.append(t.group(1).strip() if t else None)
@@ -305,7 +310,10 @@ def parse_cbmc_json(path):
     try:
         data = json.load(open(path))
     except Exception as e:
-        txt = open(path, 'rb').read().decode('utf-8', 'replace')
+        try:
+            txt = open(path, 'rb').read().decode('utf-8', 'replace')
+        except Exception:
+            txt = 'no output file %s' % path
         return None, txt[-3000:], 0.0, 'PARSE-ERROR'
     results = None
     msgs = []
@@ -436,6 +444,31 @@ def run_unit(unit, tier, keep=False, verbose=False):
             cmd += ['--sat-solver', 'cadical']
         elif solver in ('z3', 'cvc5'):
             cmd += ['--' + solver]
+        if unit.get('only'):
+            # control-only unit: ask CBMC only for the obligations this unit attributes (same formula, far fewer goals)
+            props = list_properties(gb2, checks + unit.get('cbmc_flags', []) + ['--unwind', str(unit.get('unwind', 70)), '--unwinding-assertions', '--object-bits', str(obits)] + (['--unwindset', ','.join(uws)] if uws else []), scratch)
+            if props is None:
+                res['status'] = 'UNDECIDED'
+                res['why'] = 'cannot list properties'
+                return res
+            npost0 = {}
+            for n0, d0, sl0 in props:
+                f0, c0 = classify(n0)
+                if c0 == 'postcondition':
+                    npost0[f0] = npost0.get(f0, 0) + 1
+            pats = [re.compile(x) for x in unit['only']]
+            sel = []
+            for n0, d0, sl0 in props:
+                o0 = obligation_record(dict(unit, _npost=npost0), {'property': n0, 'description': d0, 'sourceLocation': sl0, 'status': 'UNKNOWN'})
+                if any(p.search(o0['key']) for p in pats) or o0['class'] == 'unwind':
+                    sel.append(n0)
+            if not sel:
+                res['status'] = 'UNDECIDED'
+                res['why'] = "'only' patterns select no obligation"
+                return res
+            for n0 in sel:
+                cmd += ['--property', n0]
+            res['selected_properties'] = len(sel)
         cmd += ([] if os.environ.get('VERIF_NOTRACE') else ['--trace']) + ['--json-ui', '--verbosity', '8']
         res['cmds'].append(' '.join(cmd))
         res['backend'] = solver or 'minisat (cbmc default)'
@@ -547,6 +580,18 @@ def run_unit(unit, tier, keep=False, verbose=False):
             shutil.rmtree(scratch, ignore_errors=True)
 
 
+
+def list_properties(gb, flags, scratch):
+    """[(name, description, sourceLocation)] of the goto binary under the given check flags."""
+    rc, txt, _ = run(['cbmc', gb] + flags + ['--show-properties', '--json-ui'], scratch, 600, mem_gb=8)
+    try:
+        for m in json.loads(txt[txt.index('['):]):
+            if 'properties' in m:
+                return [(p['name'], p.get('description', ''), p.get('sourceLocation', {})) for p in m['properties']]
+    except Exception:
+        pass
+    return None
+
 def run_cover(unit, scratch, uws, timeout, mem):
     out = {'status': 'OK', 'why': '', 'covers': []}
     gb, txt = compile_unit(unit, scratch, cover=True)
@@ -562,11 +607,18 @@ def run_cover(unit, scratch, uws, timeout, mem):
            '--object-bits', str(unit.get('_object_bits', unit.get('object_bits', 8)))] + unit.get('cbmc_flags', [])
     if uws:
         cmd += ['--unwindset', ','.join(uws)]
-    solver = os.environ.get('VERIF_SOLVER') or unit.get('solver')
+    # the cover run is incremental (one solver call per goal): a unit may keep CBMC's built-in solver for it
+    # ("cover_solver": "default") while the main run uses an external one
+    solver = unit.get('cover_solver') or os.environ.get('VERIF_SOLVER') or unit.get('solver')
     if solver == 'kissat':
         cmd += ['--external-sat-solver', 'kissat']
     elif solver == 'cadical':
         cmd += ['--sat-solver', 'cadical']
+    props = list_properties(gb2, cmd[2:], scratch)
+    if props:
+        goals0 = [n0 for n0, d0, sl0 in props if d0.startswith('COVER ') and sl0.get('function') == unit['harness']]
+        for n0 in goals0:
+            cmd += ['--property', n0]
     cmd += ['--json-ui']
     outp = os.path.join(scratch, 'cover.json')
     rc, _, _ = run(cmd, scratch, timeout, mem_gb=mem, out=outp)
@@ -838,8 +890,27 @@ def check_property(pid, tier, only=None, keep=False):
     units = [u for u in load_units() if pid in u['properties']]
     if tier == 'quick':
         units = [u for u in units if u.get('tier', 'quick') == 'quick']
+    else:
+        # 'attic' units (did not finish within the tool limits / not closed) belong to no registered check
+        units = [u for u in units if u.get('tier', 'quick') in ('quick', 'thorough')]
     if only:
         units = [u for u in units if u['name'] in only]
+    # seed testing: VERIF_CHANGED_FILES=<repo files touched by a change> restricts the run to the units whose
+    # verified text contains one of those files (verification is modular: a unit that sees a changed
+    # function only through its contract cannot change its verdict).  A changed header selects every unit.
+    changed = [f for f in os.environ.get('VERIF_CHANGED_FILES', '').split() if f]
+    if changed and not any(f.endswith('.h') or f.endswith('.h.in') for f in changed):
+        def sources(u):
+            txt = open(os.path.join(VERIF, u['file'])).read()
+            src = set(re.findall(r'#include "(src/[^"]+)"', txt))
+            src |= {e['file'] for e in u.get('extract', [])} | {e['file'] for e in u.get('loop_contracts', [])}
+            return src
+        sel = [u for u in units if sources(u) & set(changed)]
+        log('[%s] VERIF_CHANGED_FILES=%s: %d of %d units contain a changed file' % (pid, changed, len(sel), len(units)))
+        if not sel:
+            print('OK property=%s tier=%s no unit of this property contains a changed file (%s)' % (pid, tier, ' '.join(changed)))
+            return 0
+        units = sel
     if not units:
         print('UNDECIDED property=%s no units' % pid)
         return 2
